@@ -114,4 +114,78 @@ theorem repo_lib_silent : offendingSites = [] := by decide +kernel
 theorem single_output_site : (Gen.stdoutSites.filter (fun s => s.crate == "hulc2model" && s.allowed)).length = 1 := by
   decide +kernel
 
+/-! ## the companion tool writes the same model JSON to the file named with `-o` -/
+
+theorem read_write_same (fs : Fs) (p c : String) : (fs.write p c).read p = some c := by
+  simp [Fs.write, Fs.read]
+
+theorem find?_filter_keep {α} (l : List α) (p q : α → Bool)
+    (h : ∀ x ∈ l, p x = true → q x = true) : (l.filter q).find? p = l.find? p := by
+  induction l with
+  | nil => rfl
+  | cons a t ih =>
+    have iht := ih (fun x hx => h x (List.mem_cons_of_mem _ hx))
+    cases hq : q a with
+    | true =>
+      simp only [List.filter_cons, hq, if_true, List.find?_cons]
+      cases p a <;> simp [iht]
+    | false =>
+      have hp : p a = false := by
+        cases hpa : p a with
+        | false => rfl
+        | true => have := h a (by simp) hpa; rw [hq] at this; cases this
+      simp [hq, hp, iht]
+
+theorem read_write_other (fs : Fs) (p q c : String) (h : q ≠ p) : (fs.write p c).read q = fs.read q := by
+  unfold Fs.write Fs.read
+  have hp : ¬ p = q := fun e => h e.symm
+  simp only [List.find?_cons, hp, decide_false]
+  congr 1
+  apply find?_filter_keep
+  intro e _ he
+  have : e.1 = q := by simpa using he
+  simp [this, h]
+
+/-- `thor_output_file`: whenever the library converts the file, `thor FILE -o P` (any verbosity, with or
+without `-r R` for another path R) leaves in P exactly the model JSON of the library conversion —
+whatever P held before — and exits with status 0 -/
+theorem thor_output_file (a : ThorArgs) (lib : String → Except String (String × String))
+    (canCreate : String → Bool) (fs : Fs) (p mj ij : String)
+    (hl : a.license = false) (hlib : lib a.input = .ok (mj, ij)) (ho : a.out = some p)
+    (hc : canCreate p = true) (hr : ∀ r, a.res = some r → r ≠ p ∧ canCreate r = true) :
+    let run := thorMain a lib canCreate fs
+    run.fs.read p = some mj ∧ run.status = 0 := by
+  cases hres : a.res with
+  | none =>
+    simp [thorMain, hl, hlib, ho, hres, thorWriteFile, hc, read_write_same]
+  | some r =>
+    obtain ⟨hne, hcr⟩ := hr r hres
+    simp [thorMain, hl, hlib, ho, hres, thorWriteFile, hc, hcr,
+      read_write_other _ r p ij (Ne.symm hne), read_write_same]
+
+/-- the file written with `-o` does not depend on the verbosity -/
+theorem thor_file_independent_of_verbosity (a : ThorArgs) (lib : String → Except String (String × String))
+    (canCreate : String → Bool) (fs : Fs) (v : Nat) :
+    (thorMain { a with v := v } lib canCreate fs).fs = (thorMain a lib canCreate fs).fs ∧
+    (thorMain { a with v := v } lib canCreate fs).status = (thorMain a lib canCreate fs).status := by
+  unfold thorMain
+  cases a.license <;> simp only [Bool.false_eq_true, if_false, if_true, and_self]
+  cases lib a.input with
+  | error e => simp
+  | ok r =>
+    obtain ⟨mj, ij⟩ := r
+    cases a.out <;> cases a.res <;> simp only [thorWriteFile] <;>
+      (repeat' split) <;> simp_all
+
+/-- a file the library cannot convert: nothing is written anywhere, nothing on stdout, status ≠ 0 -/
+theorem thor_error_writes_nothing (a : ThorArgs) (lib : String → Except String (String × String))
+    (canCreate : String → Bool) (fs : Fs) (e : String) (hl : a.license = false)
+    (hlib : lib a.input = .error e) :
+    let run := thorMain a lib canCreate fs
+    run.fs = fs ∧ stdoutOf run.writes = [] ∧ run.status ≠ 0 := by
+  simp [thorMain, hl, hlib, stdoutOf]
+
+example : (thorMain { input := "a.ctehexml", out := some "m.json", v := 2 } (fun _ => .ok ("MODEL", "IND"))
+    (fun _ => true) [("m.json", "old and much longer content")]).fs.read "m.json" = some "MODEL" := by decide
+
 end Cte.C01
